@@ -529,6 +529,8 @@ class Seqs:
             p = pos_iter(self, e.generators[0].target, e.generators[0].iter, at)
             if p is None:
                 return None
+            if isinstance(e.elt, ast.Constant):
+                return "blank"      # [None for _ in xs] is [None] * len(xs)
             return (self.call_role(self, e, at) if self.call_role else None) or "aligned"
         if isinstance(e, ast.Call) and self.call_role:
             return self.call_role(self, e, at)
@@ -1138,7 +1140,12 @@ def _nf_comprehension_loops(node, resolves):
                 and st.get(s_.targets[0].id, 0) == 1
             acc = s_.targets[0].id if whole else "collected__c%d" % n_[0]
             init = ast.Assign(targets=[ast.Name(id=acc, ctx=ast.Store())], value=ast.List(elts=[], ctx=ast.Load()))
-            push = ast.Expr(value=ast.Call(func=ast.Attribute(value=ast.Name(id=acc, ctx=ast.Load()), attr="append", ctx=ast.Load()), args=[elt], keywords=[]))
+            def mk_push(x):
+                return ast.Expr(value=ast.Call(func=ast.Attribute(value=ast.Name(id=acc, ctx=ast.Load()), attr="append", ctx=ast.Load()), args=[x], keywords=[]))
+            push = mk_push(elt)
+            if isinstance(elt, ast.IfExp):
+                # `A if c else B` as element: one append in each branch (a helper called in one arm only runs there)
+                push = ast.If(test=elt.test, body=[mk_push(elt.body)], orelse=[mk_push(elt.orelse)])
             body = [push]
             if ifs:
                 body = [ast.If(test=ifs[0] if len(ifs) == 1 else ast.BoolOp(op=ast.And(), values=ifs), body=[push], orelse=[])]
@@ -1189,15 +1196,27 @@ def normal_form(ck, fi):
                 return inl.resolve(c, out) is not None
             except Exception:   # noqa
                 return False
+        # a local closure that rebinds a variable of this function (`nonlocal n`) does, once written out in place,
+        # exactly what it did as a closure: the declaration is dropped so that it can be written out
+        stripped = []
+        shared = set()
+        for sub in list(out.nested.values()):
+            nl = [x for x in sub.node.body if isinstance(x, ast.Nonlocal)]
+            if nl and not any(isinstance(x, (ast.Nonlocal, ast.Global)) for y in sub.node.body for x in ast.walk(y) if x not in nl) \
+                    and not any(isinstance(x, _FUNCS + (ast.Lambda,)) for y in sub.node.body for x in ast.walk(y)):
+                sub.node.body = [x for x in sub.node.body if x not in nl] or [ast.Pass()]
+                stripped.append(sub.node.name)
+                shared |= {nm for x in nl for nm in x.names}
+                changed = True
         changed = _nf_comprehension_loops(node, resolves) or changed
         if changed:
             out.nested = {}
             fi.module._index_nested(out)
-            before = ast.dump(node)
-            inl.rewrite_block_owner(node, out, _all_names(node), 0)
-            if ast.dump(node) != before:
-                # closures whose every call was written out are not needed any more (their defs stay: harmless)
-                pass
+            # (the variables such a closure shares with this function keep their names)
+            inl.rewrite_block_owner(node, out, _all_names(node) - shared, 0)
+        if any(isinstance(c, ast.Call) and isinstance(c.func, ast.Name) and c.func.id in stripped for c in _own_nodes(node)):
+            cache[fi.qual] = fi     # a call of such a closure is left: the function stays as it is
+            return fi
     if not changed:
         cache[fi.qual] = fi
         return fi
@@ -1465,6 +1484,12 @@ def _check_merge(ck, R1):
     RESG = result_name(gm)
     qcalls = [c for c in gm.calls("get_mementos") if gm.nodes(c) and A.call_recv(c) is not None and gm.xnorm(A.call_recv(c), gm.nodes(c)[0]) == "self._metadata_source"]
     gm.some(qcalls, "metadata-source get_mementos call")
+    # asking the store for every input element, in order, and returning its answer is a merge with no hits: such a
+    # return (a cache-less back end answered up front) needs no further look
+    whole = [c for c in qcalls if len(c.args) == 1 and not c.keywords and seqs.role(unwrap_copy(c.args[0]), gm.nodes(c)[0]) == "input"
+             and any(r.value is not None and unwrap_copy(r.value) is c for r in gm.returns())]
+    qcalls = [c for c in qcalls if c not in whole]
+    gm.some(qcalls, "metadata-source get_mementos call for the cache misses")
 
     def is_store_answer(e, at):
         lv = origins(gm, e, at)
@@ -1494,12 +1519,23 @@ def _check_merge(ck, R1):
     oki = len(cursors) == 1 and None not in cursors and bool(miss_edges)
     if not uses and miss_edges:
         # the store answer consumed through an iterator made once before the loop: next(it) is read + advance in one
-        def is_answer_iter(e, at):
+        def is_answer_iter(e, at, maker):
             lv = origins(gm, e, at)
-            return len(lv) == 1 and isinstance(lv[0][0], ast.Call) and isinstance(lv[0][0].func, ast.Name) and lv[0][0].func.id == "iter" \
-                and len(lv[0][0].args) == 1 and is_store_answer(lv[0][0].args[0], lv[0][1]) and not gm.inside(lv[0][0], ml) \
-                and gm.enclosing(lv[0][0], (ast.For, ast.While)) is None
-        nexts = [c for c in gm.calls("next") if isinstance(c.func, ast.Name) and c.args and gm.nodes(c) and is_answer_iter(c.args[0], gm.nodes(c)[0])]
+            if not (len(lv) == 1 and isinstance(lv[0][0], ast.Call) and isinstance(lv[0][0].func, ast.Name)):
+                return False
+            mk = lv[0][0]
+            made = mk.func.id == "iter" if maker == "iter" else gm.fi.module.imports.get(mk.func.id) == "collections:deque"
+            return made and len(mk.args) == 1 and not mk.keywords and is_store_answer(mk.args[0], lv[0][1]) and not gm.inside(mk, ml) \
+                and gm.enclosing(mk, (ast.For, ast.While)) is None
+        # read + advance in one: next(it) on an iterator, q.popleft() on a deque, made once from the store's answer
+        nexts = [c for c in gm.calls("next") if isinstance(c.func, ast.Name) and c.args and gm.nodes(c) and is_answer_iter(c.args[0], gm.nodes(c)[0], "iter")]
+        nexts += [c for c in gm.calls("popleft") if not c.args and gm.nodes(c) and is_answer_iter(A.call_recv(c), gm.nodes(c)[0], "deque")]
+        # ... and the object is used for nothing else
+        cursor_names = {A.dotted(c.args[0]) if A.call_attr(c) == "next" else A.dotted(A.call_recv(c)) for c in nexts}
+        stray = [n for n in A.walk_body(gm.node) if isinstance(n, ast.Name) and isinstance(n.ctx, ast.Load) and n.id in cursor_names
+                 and not any(n is (c.args[0] if A.call_attr(c) == "next" else A.call_recv(c)) for c in nexts)]
+        if stray:
+            nexts = []
         others = [c for c in nexts if not gm.inside(c, ml) or not gm.unconditional(c)]
         if nexts and not others:
             nn = gm.nodes_all(nexts)
